@@ -54,7 +54,7 @@ def gen_case(rng):
         tok = rng.choice(toks)
         gap = rng.choice([1000, 1000, 1_000_000, 5_000_000, 128 * S - 1000, 128 * S, 128 * S + 1, 200 * S])
         if r < 0.18:
-            lines.append("reg %d" % tok)
+            lines.append("reg %d%s" % (tok, " con" if rng.random() < 0.4 else ""))
             if tok in regs and regs[tok][1] != "gone":
                 kinds.add("dup-token-reg")
             else:
@@ -118,6 +118,14 @@ def canon(line):
     return sorted(line.split(" ; "))
 
 
+def dl(line):
+    """the line as the driver sees it: whether a registration request is sent confirmable (`reg <tok> con`) is a transport
+    detail below the model (it decides which exit of NewObservation a later `regabort` takes: waiting for the first
+    response, or the write itself failing because the ACK never came)"""
+    f = line.split()
+    return "reg " + f[1] if f[0] == "reg" and len(f) == 3 else line
+
+
 def explore(ctx, art):
     rng = random.Random(ctx.seed)
     thorough = ctx.tier == "thorough"
@@ -138,8 +146,8 @@ def explore(ctx, art):
         return
     model = judge = None
     if art.get("driver"):
-        rc, model, _ = common.pipe_lines([art["driver"], "model"], lines)
-        jl = [l if l.split()[0] in ("cfg", "valid", "end") else l + " | " + o for l, o in zip(lines, impl)]
+        rc, model, _ = common.pipe_lines([art["driver"], "model"], [dl(l) for l in lines])
+        jl = [dl(l) if l.split()[0] in ("cfg", "valid", "end") else dl(l) + " | " + o for l, o in zip(lines, impl)]
         rc2, judge, _ = common.pipe_lines([art["driver"], "judge"], jl)
         if rc or rc2 or len(model) != len(lines) or len(judge) != len(lines):
             ctx.broken.append(("model", "C08 driver run failed", ""))
@@ -210,7 +218,7 @@ def replay(ctx, rep):
         print("replay file names no failing input:", rep.get("no_longer_checks"))
         return 1
     impl = common.run_test_harness(ctx, art["test"], "TestC08", lines, tag="replay")
-    jl = [l if l.split()[0] in ("cfg", "valid", "end") else l + " | " + o for l, o in zip(lines, impl)]
+    jl = [dl(l) if l.split()[0] in ("cfg", "valid", "end") else dl(l) + " | " + o for l, o in zip(lines, impl)]
     rc, judge, _ = common.pipe_lines([art["driver"], "judge"], jl)
     bad = 0
     for l, o, j in zip(lines, impl, judge):
